@@ -1,6 +1,8 @@
 package main
 
 import (
+	"worldcoin/gnark-mbu/poseidon_tree"
+
 	"fmt"
 	"math/big"
 	"math/rand"
@@ -190,6 +192,53 @@ func runC05(o *cli.Opts, run *evid.Run) {
 			check2(fmt.Sprintf("C05/special2x/%d/%d", i, j), "special", sp[i], sp[j], false)
 		}
 		checkMulti(fmt.Sprintf("C05/multi/special/%d", i), sp[i], sp[(i*7+3)%len(sp)])
+	})
+	// "roots computed inside the circuit coincide with roots computed by the off-chain tree": the gadget is compared
+	// with the reference above, here the repository's off-chain tree is compared with the same reference on the same
+	// special / sparse / dense value classes (first write to a slot, overwrite, and write next to an occupied slot)
+	cli.ForEach(len(sp)+o.Pick(200, 4000), 0, func(i int) {
+		key := fmt.Sprintf("C05/offchain/%d", i)
+		if !run.Wants(key) {
+			return
+		}
+		r := gen.RNG(o.Seed, key)
+		v := c05Elem(r)
+		if i < len(sp) {
+			v = sp[i]
+		}
+		d := 1 + i%6
+		tree := poseidon_tree.NewTree(d)
+		rt := ref.NewTree(d, ref.H2)
+		idx := r.Intn(1 << d)
+		type op struct {
+			i int
+			v *big.Int
+		}
+		var ops []op
+		switch i % 3 {
+		case 1:
+			ops = append(ops, op{idx ^ 1, c05Elem(r)})
+		case 2:
+			ops = append(ops, op{idx, c05Elem(r)}, op{r.Intn(1 << d), sp[r.Intn(len(sp))]})
+		}
+		ops = append(ops, op{idx, v})
+		okAll := true
+		for k, o2 := range ops {
+			prev := rt.Get(uint64(o2.i))
+			proof := tree.Update(o2.i, *o2.v)
+			rt.Set(uint64(o2.i), o2.v)
+			got := tree.Root()
+			sib := make([]*big.Int, len(proof))
+			for j := range proof {
+				sib[j] = new(big.Int).Set(&proof[j])
+			}
+			ok := got.Cmp(rt.Root()) == 0 && len(sib) == d && ref.Fold(ref.H2, o2.v, uint64(o2.i), sib).Cmp(rt.Root()) == 0
+			if !ok {
+				okAll = false
+				run.Violate(fmt.Sprintf("%s/step%d", key, k), fmt.Sprintf("off-chain tree (depth %d) after writing 0x%s at %d over 0x%s: root 0x%s, reference Poseidon tree (= what the circuit recomputes) 0x%s, returned path has %d siblings", d, o2.v.Text(16), o2.i, prev.Text(16), got.Text(16), rt.Root().Text(16), len(sib)), nil)
+			}
+		}
+		run.Case("offchain-tree", true, key+v.Text(16), okAll, map[string]any{"depth": d, "value": "0x" + v.Text(16), "index": idx, "writes": len(ops)})
 	})
 	// all pairs of small integers
 	smallN := o.Pick(64, 256)
